@@ -528,6 +528,18 @@ impl<'a> Tr<'a> {
         })
     }
 
+    /// the Rust type as text, with structs / enums under their Lean names (for signatures.json)
+    pub fn ty_sig(&self, t: &Ty) -> String {
+        match self.sub.resolve(t) {
+            Ty::Adt(n) => self.reg.structs.get(&n).or_else(|| self.reg.enums.get(&n)).cloned().unwrap_or(n),
+            Ty::Slice(e) => format!("[{}]", self.ty_sig(&e)),
+            Ty::Option(e) => format!("Option<{}>", self.ty_sig(&e)),
+            Ty::Result(a, b) => format!("Result<{},{}>", self.ty_sig(&a), self.ty_sig(&b)),
+            Ty::Tuple(ts) => format!("({})", ts.iter().map(|x| format!("{},", self.ty_sig(x))).collect::<String>()),
+            other => format!("{}", other),
+        }
+    }
+
     fn int_ty(&self, t: &Ty) -> R<IntTy> {
         match self.sub.resolve(t) {
             Ty::Int(i) => Ok(i),
